@@ -1,12 +1,13 @@
 PROPERTY = "C14"
 LEVEL = "proof"
-LEAN_MODULES = ["CifModel.Props.C14", "CifModel.Props.ReviewC14"]
+LEAN_MODULES = ["CifModel.Props.C14", "CifModel.Props.ReviewC14", "CifModel.Props.ReviewRC14"]
 REQUIRED = ["CifModel.C14_all_continue", "CifModel.C14_refines_spec", "CifModel.C14_skip_current",
             "CifModel.C14_skip_siblings", "CifModel.C14_end", "CifModel.C14_error_propagates",
             "CifModel.C14_returns_ok_on_directives", "CifModel.C14_empty_loop", "CifModel.C14_cex_finished_pinned",
             "CifModel.C14_visits_sublist", "CifModel.C14_skip_current_tree", "CifModel.C14_skip_siblings_tree",
             "CifModel.C14_parent_end_after_skip_siblings", "CifModel.C14_returns_ok_or_empty_loop",
-            "CifModel.C14_handles_refine", "CifModel.C14_handles_are_elements", "CifModel.C14_handle_queries"]
+            "CifModel.C14_handles_refine", "CifModel.C14_handles_are_elements", "CifModel.C14_handle_queries",
+            "CifModel.C14_handles_all_continue"]
 GEN = ["ErrCodes"]
 FAMILIES = ["walk"]
 TRUSTED_BASE = [
@@ -47,8 +48,12 @@ PARTIAL = [
     "'handles passed to callbacks are valid for queries': the LOGIC of it is now a theorem about the walker model with handles "
     "(Model/WalkH.lean: a container handle = the path of positions from the list of data blocks, which fixes id, parent and kind; a "
     "loop handle = container path + position; packets / items = positions of the iteration): C14_handles_refine (forgetting the "
-    "handles gives Walk.walk, every CIF, every program), C14_handles_are_elements (every callback is handed the handle of the "
-    "element it announces and that handle denotes this element — right kind, code, category, names, items — in the CIF walked), "
+    "handles gives Walk.walk, every CIF, every program), C14_handles_are_elements (restated after review rA, A.2 — identity by "
+    "POSITION, not by content: the (callback, handle) pairs delivered are a Sublist of the positional traversal fullTraversalH of "
+    "Spec/TraversalPos.lean, which lists every element of the CIF with its position path / loop / packet / item index independently "
+    "of the walker; every positional entry is resolved by lookup to the element it announces — right kind, code, category, names, "
+    "items; no (callback kind, position) occurs twice, neither in the traversal nor among the delivered callbacks; forgetting the "
+    "positions gives fullTraversal), C14_handles_all_continue (no packet-less loops, all-CONTINUE: exactly fullTraversalH, CIF_OK), "
     "C14_handle_queries (cif_container_assert_block / get_code / numbers of frames and loops / get_frame / get_item_loop through a "
     "container handle and get_category / get_names through a loop handle answer as for the element announced).  The hypothesis "
     "'handlers do not modify the CIF' is built in: the handle is looked up in the CIF that is walked.  What stays observed only "
@@ -59,12 +64,17 @@ PARTIAL = [
     "iterator through the handle, counts the packets and closes it (the walker's own iterator is not open then); in packet_start / "
     "item / packet_end the loop handle saved at loop_start is asked for category and names while the walker's iterator IS open "
     "(read-only queries must not disturb the walk); model (qLoopPackets / qLoopCategory / qLoopNames through the handle) and "
-    "oracle predict all answers.  There is no API to ask a loop handle for its container",
+    "oracle predict all answers.  There is no API to ask a loop handle for its container.  Not a separate statement: 'the "
+    "loop_start of the enclosing loop was delivered earlier in this walk with the handle (path, i) of a packet / item handle (path, i, "
+    "j..)' — the Sublist + Nodup statements fix WHICH entry of the positional traversal each callback is, that children are only "
+    "delivered after their parent's start callback is C14_refines_spec on the event tree; the q... functions of C14_handle_queries are "
+    "specification-level look-ups (no ids, no SQL, no normalisation of the argument), tied to container.c / loop.c by the "
+    "correspondence run only",
 ]
 LEVEL_TEXT = ("Proof about the executable model Walk.walk, for all CIFs (any shape/order) and all handler programs "
               "(arbitrary functions of invocation index and event): refinement of a declarative pruning semantics over the "
               "event tree, all-continue = depth-first flattening with CIF_OK, local SKIP_CURRENT / SKIP_SIBLINGS laws for "
-              "every element kind, delivered callbacks = a sublist of the full traversal, every callback gets the handle of the element it announces and queries through it answer accordingly (walker model with handles, refining Walk.walk), END / error code = last callback and result (every CIF), directives never yield an error. The model "
+              "every element kind, delivered callbacks = a sublist of the full traversal, every callback gets the handle of the element AT ITS POSITION (the delivered (callback, handle) pairs are a sublist of an independent positional traversal in which no (kind, position) occurs twice; equal to it under all-CONTINUE) and queries through it answer accordingly (walker model with handles, refining Walk.walk), END / error code = last callback and result (every CIF), directives never yield an error. The model "
               "is tied to src/cif.c by differential execution with an independent implementation-level oracle.")
 LEVEL_NOTE = ("All theorems hold for every handler program (F32 fixed by d1128e2; C14_cex_finished_pinned documents the old "
               "behaviour); handles passed to callbacks: identity / kind / query answers proved for the model with handles (C14_handles_*), liveness of the C objects observed under ASan. Trusted: Lean kernel, model transcription (checked by correspondence), Spec/Traversal.lean, harness.")
